@@ -113,6 +113,9 @@ let run (args : (string * string) list) : string =
     add "m_iter_from" (okf' (first_bad (fun k ->
         let exp = List.mapi (fun i _ -> expected "iter_from" k (k + i)) (skipn k g) in
         if acc_iter_from le cs p offs bits (n_of_int k) = Some exp then "" else Printf.sprintf "k:%d" k) ks));
+    add "m_iter_ring" (okf' (first_bad (fun k ->
+        let exp = List.mapi (fun i _ -> expected "iter_from" k (k + i)) (skipn k g) in
+        if acc_iter_from_ring le cs p offs bits (n_of_int k) = Some exp then "" else Printf.sprintf "k:%d" k) ks));
     add "m_seq_from" (okf' (first_bad (fun k ->
         if seq_iter_from (rd_bits le cs) p (nat_of_int nn) (nat_of_int k) bits = Some (skipn k g) then ""
         else Printf.sprintf "k:%d" k) ks));
